@@ -49,7 +49,9 @@ def request(draw, shape):
     if op == "coiter":
         r["kind"] = draw(st.sampled_from(["Shape", "ActiveShape", "RangeShape"]))
         r["ref"] = draw(st.booleans())
-        r["s"], r["e"], r["step"] = max(lo, 0), hi, draw(st.sampled_from([1, 1, 2]))
+        r["s"], r["e"], r["step"] = max(lo, 0), hi, draw(st.sampled_from([1, 1, 2, 3, -1, -2]))
+        if r["step"] < 0:
+            r["s"], r["e"] = min(hi, shape - 1), max(lo, 0) - 1       # a descending range
         r["n_others"] = draw(st.integers(0, 2))
         r["grow"] = draw(st.sampled_from([0, 0, 1, 3]))      # the other fibers may declare a larger shape
     if op == "project":
@@ -65,7 +67,8 @@ def request(draw, shape):
     if op == "prune":
         r["keep"] = draw(st.lists(st.booleans(), min_size=1, max_size=8))
     if op == "lazy":
-        r["kind"] = draw(st.sampled_from(["&", "|", "-", "<<", "project", "prune"]))
+        r["kind"] = draw(st.sampled_from(["&", "|", "-", "<<", "project", "prune", "^", "union", "intersection", "lf",
+                                          "and-project", "project-prune"]))
         r["m"], r["k"] = draw(st.sampled_from([1, 2, -1])), draw(st.integers(0, 5))
         r["keep"] = draw(st.lists(st.booleans(), min_size=1, max_size=8))
     return r
@@ -202,7 +205,10 @@ def check(case, rec):
             else:
                 s, e = a0, a1
             sp = S.legal_sp(r["sp"], s)
-            kw = {} if sp is None else {"start_pos": sp}
+            # (a shortcut may be handed over as a plain position or boxed: "scalar or Payload() containing a scalar")
+            kw = {} if sp is None else {"start_pos": Payload(sp) if r["sp"] % 3 == 2 else sp}
+            if sp is not None and r["sp"] % 3 == 2:
+                rec.cls("boxed-start-pos")
             if op == "iterOccupancy":
                 got = pyl(f.iterOccupancy(**kw))
             elif op == "iterRange":
@@ -345,15 +351,24 @@ def check(case, rec):
             # the keep decision depends on the coordinate only (what "position" means for a fiber with
             # explicit defaults or an uncompressed format is not part of the property)
             want = [x for x in pres if keep[x[0] % len(keep)]]
-            lazy = f.prune(trans_fn=lambda i, c, p: keep[c % len(keep)])
+            psp = S.legal_sp(r["sp"], None)
+            pkw = {} if psp is None else {"start_pos": Payload(psp) if r["sp"] % 2 else psp}
+            lazy = f.prune(trans_fn=lambda i, c, p: keep[c % len(keep)], **pkw)
             for rep in range(2):
                 S.compare(iterate(lazy, "prune"), want, "prune")
             S.unchanged("prune")
         elif op == "lazy":
             kind = r["kind"]
             other = Subject(case["others"][0], shape, nested, default)
-            if kind in ("&", "|", "-"):
-                mk = {"&": lambda: f & other.fiber, "|": lambda: f | other.fiber, "-": lambda: f - other.fiber}[kind]
+            if kind in ("&", "|", "-", "^", "union", "intersection", "lf", "and-project"):
+                o2 = Subject(case["others"][1], shape, nested, default)
+                mk = {"&": lambda: f & other.fiber, "|": lambda: f | other.fiber, "-": lambda: f - other.fiber,
+                      "^": lambda: f ^ other.fiber,
+                      "union": lambda: Fiber.union(f, other.fiber, o2.fiber),
+                      "intersection": lambda: Fiber.intersection(f, other.fiber, o2.fiber),
+                      "lf": lambda: Fiber.intersection(f, other.fiber, style="leader-follower"),
+                      # a lazy fiber made from a lazy fiber
+                      "and-project": lambda: (f & other.fiber).project(trans_fn=lambda c: c + r["k"])}[kind]
             elif kind == "<<":
                 z = Subject(case["others"][1], shape, nested, default)
                 if z.desc["fmt"] != "C":
@@ -361,6 +376,9 @@ def check(case, rec):
                 mk = lambda: z.fiber << f
             elif kind == "project":
                 mk = lambda: f.project(trans_fn=lambda c: r["m"] * c + r["k"])
+            elif kind == "project-prune":
+                mk = lambda: f.project(trans_fn=lambda c: c + r["k"]).prune(
+                    trans_fn=lambda i, c, p: r["keep"][c % len(r["keep"])])
             else:
                 mk = lambda: f.prune(trans_fn=lambda i, c, p: r["keep"][c % len(r["keep"])])
             lazy = mk()
@@ -383,6 +401,12 @@ def check(case, rec):
                     raise Violation("fromLazy", f"fromLazy({kind}) stores {gotm}, lazy iteration gave {wantm}")
                 if eager.isLazy():
                     raise Violation("fromLazy", "fromLazy returned a lazy fiber")
+                # ... also a lazy fiber that has been walked before materialises completely
+                eager2 = Fiber.fromLazy(lazy)
+                gotm2 = [(c, sem(p, default)) for c, p in zip(eager2.coords, eager2.payloads)]
+                if gotm2 != wantm:
+                    raise Violation("fromLazy", f"fromLazy({kind}) of a lazy fiber that was iterated before stores {gotm2}, "
+                                    f"lazy iteration gave {wantm}")
                 if kind in ("project", "prune"):
                     # the eager fiber is a fiber of its own: updating it in place leaves the lazy fiber (and the
                     # fiber it was made from) as they were -- "iterated repeatedly with identical results"
